@@ -14,6 +14,7 @@ from dataclasses import dataclass, field
 from .core import clone, norm
 
 UNKNOWN = object()
+NONE_VALUE = object()      # an oracle's way of saying "the value is None"
 
 
 class Sym:
@@ -52,6 +53,8 @@ class PE:
             return env[key]
         if self.oracle is not None:
             r = self.oracle(e, self, env)
+            if r is NONE_VALUE:
+                return None
             if r is not None:
                 return r
         if isinstance(e, ast.Constant):
